@@ -265,6 +265,18 @@ func (x *fx) contractCall(fc *FuncContract, key string, names []string, ptypes [
 		}
 		e.oblig("pre", name, props, x.curReach, tv.T, x.pos(ci.Pos()), c.Text)
 	}
+	// ghost sets: the callee adds to a set owned by the caller (after its preconditions were checked)
+	for _, ga := range fc.GhostAdds {
+		tv, err := env.eval(ga.Expr)
+		if err != nil {
+			e.note("ghostadd of " + key + ": " + err.Error())
+			continue
+		}
+		gk := "gs:" + ga.Set
+		e.famSort["ghost:"+gk] = "(Array String Bool)"
+		cur := x.ghostGet(x.cur, gk, "(Array String Bool)")
+		x.cur.ghost[gk] = e.define("ghostset", "(Array String Bool)", fmt.Sprintf("(store %s %s true)", cur, tv.T))
+	}
 	acrossKey := shortKey(key)
 	if i := strings.LastIndex(acrossKey, "."); i >= 0 {
 		acrossKey = acrossKey[i+1:]
